@@ -196,7 +196,9 @@ func (s TxSpec) Build() *types.Transaction {
 		}
 		cd := types.ContractData{GasLimit: fmt.Sprintf("%d", gas), TransferValue: val}
 		target := ""
-		if s.K == "create" {
+		if s.K == "create" && s.Data != "" {
+			cd.AbiData = "0x" + strings.TrimPrefix(s.Data, "0x") // explicit init code
+		} else if s.K == "create" {
 			cd.AbiData = common.ToHex(evmasm.Deployer(Program(s.Prog, s.Arg)))
 		} else {
 			target = s.To
